@@ -78,6 +78,7 @@ from dataclasses import dataclass, field
 from pathlib import Path
 from typing import Any, ClassVar, Literal, Optional, Union, Tuple, NewType, Sequence, Mapping, FrozenSet, List, Dict, Set
 from pyoak.node import ASTNode
+from pyoak.origin import CodeOrigin, NO_ORIGIN
 from pyoak.origin import Origin
 """
 
@@ -214,6 +215,12 @@ class {P}Color(enum.Enum):
     RED = 1
     GREEN = "g"
     BLUE = 3
+
+
+class {P}Op(str, enum.Enum):
+    # a str subclass whose str() is not its payload ('UOp.ADD' vs '+')
+    ADD = "+"
+    SUB = "-"
 
 
 class {P}Symbol:
@@ -379,6 +386,13 @@ def core_specs(P: str = "U", variant: int = 0) -> list[CS]:
             body="    def __len__(self):\n        return len(self.elems)\n\n    def __iter__(self):\n        return iter(self.elems)\n\n    def __contains__(self, x):\n        return any(x is e for e in self.elems)\n",
         ),
         CS(f"{P}Hold", (E,), F(FS("blk", "child", f"{P}Coll", "one", (f"{P}Coll",)), FS("alt", "child", f"{P}Coll | None", "opt", (f"{P}Coll",), default="None"))),
+        # a class that re-declares the built-in origin field with another annotation
+        CS(f"{P}Narrow", (E,), F(FS("origin", "prop", "Union[CodeOrigin, Origin]", "origin", kw_only=True, default="NO_ORIGIN"), FS("v", "prop", "int", "int", default="0"), FS("kid", "child", f"{E} | None", "opt", (E,), default="None"))),
+        # two classes whose (long) names share their first 16 characters and whose layout is the same
+        CS(f"{P}VeryLongClassNameAlpha", (E,), F(FS("v", "prop", "int", "int", default="0"), FS("kid", "child", f"{E} | None", "opt", (E,), default="None"))),
+        CS(f"{P}VeryLongClassNameBeta", (E,), F(FS("v", "prop", "int", "int", default="0"), FS("kid", "child", f"{E} | None", "opt", (E,), default="None"))),
+        # a property whose value is a str subclass with its own str()
+        CS(f"{P}OpNode", (E,), F(FS("sop", "prop", f"{P}Op", "senum", default=f"{P}Op.ADD"), FS("kid", "child", f"{E} | None", "opt", (E,), default="None"))),
         # string (forward-reference) annotations mixed with direct ones, the string ones declared first / in between
         CS(
             f"{P}StrMix",
